@@ -202,6 +202,7 @@ def run_lexer(pid, name, *, cases=None, cfgs=None, grow=None, invariants=ALL_INV
             continue
         seen.add(line)
         recs.append(json.loads(line))
+    recs.sort(key=lambda x: (x["id"], x["cfg"], x["raw"]))
     if "InputsWellFormed" in r.invariant_violated:
         raise core.MachineryError(f"{name}: the generator produced an ill-formed piece sequence")
     return r, recs
@@ -391,7 +392,8 @@ def raw_lookalikes(cfg):
     """Text for raw bodies that looks like tags but is not the endraw tag."""
     j = "".join
     bs, be, vs, ve, cs, ce = (j(cfg[k]) for k in ("bs", "be", "vs", "ve", "cs", "ce"))
-    return [bs + "_Ea_" + be, bs, be, vs, ve, cs, ce, bs + "-", "E", "R"]
+    # (never the bare word endraw: start + "endraw" + end pieces would assemble a real endraw tag)
+    return [bs + "_Ea_" + be, bs, be, vs, ve, cs, ce, bs + "-", "R", bs + "_aE_" + be]
 
 
 def gen_structured(rng, cfg, n, rich=True, raw_text_only=False):
@@ -419,8 +421,8 @@ def gen_structured(rng, cfg, n, rich=True, raw_text_only=False):
             r = rng.choice(SIGNS if kind in ("block", "comment") else ("", "-"))
             if kind == "comment":
                 b = rng.choice(cb) if rich else "_a_"
-                if b == "" and (l or r or raw_text_only):
-                    # (translated programs: "<!--" + "-->" would read as "<!---" "->")
+                if b == "" and (l or r or raw_text_only or cfg["ce"][0] in "-+"):
+                    # ("<!--" + "-->" would read as "<!---" "->")
                     b = "_"
             else:
                 b = rng.choice(TAG_BODIES[kind]) if rich else TAG_BODIES[kind][0]
